@@ -44,10 +44,11 @@ var c14Terms = []c14Term{
 	{Src: "f", Kind: "fate"}, {Src: "b", Kind: "coc", Bonus: true, N: 1}, {Src: "p1", Kind: "coc", N: 1},
 	{Src: "2a0m2k2", Kind: "wod", Pool: 2, Add: 0, Sides: 2, Thr: 2}, {Src: "1a2m2k1", Kind: "wod", Pool: 1, Add: 2, Sides: 2, Thr: 1}, {Src: "1c2m2", Kind: "dc", Pool: 1, Add: 2, Sides: 2},
 	{Src: "(2d2)d2", Kind: "nested", X: 2, Y: 2, Z: 2}, {Src: "1d2d2", Kind: "chain", X: 1, Y: 2, Z: 2},
+	{Src: "(1d2+1d2)d2", Kind: "nested2", X: 2, Y: 2, Z: 2}, {Src: "2d(1d2+1d2)", Kind: "nested2s", X: 2, Y: 2, Z: 2},
 	{Src: "x", Kind: "var", Val: 4}, {Src: "力量", Kind: "var", Val: 7}, {Src: "cc", Kind: "computed", X: 2, Y: 2},
 }
 
-var c14Reduced = []int{0, 2, 4, 10, 11, 13, 16, 19, 20}
+var c14Reduced = []int{0, 2, 4, 10, 11, 13, 16, 18, 21, 22}
 
 func c14Enumerate(tier string, seed int64, emit func(string, any)) {
 	thorough := tier == "thorough"
@@ -124,7 +125,7 @@ func c14Enumerate(tier string, seed int64, emit func(string, any)) {
 		}
 	}
 	// repeated identifiers / two-line shapes seen in the crash corpus
-	for _, s := range [][]any{{18, "+", 18}, {19, "*", 19, "+", 19}, {20, "+", 20}, {18, "+", 2, "+", 18}} {
+	for _, s := range [][]any{{20, "+", 20}, {21, "*", 21, "+", 21}, {22, "+", 22}, {20, "+", 2, "+", 20}, {18, "+", 18}, {19, "*", 18}} {
 		mk("repeats", s...)
 	}
 }
@@ -159,7 +160,7 @@ func c14TermValue(t c14Term, faces []int) (val int, used int, ok bool) {
 	case "dc":
 		v, _, _, u, ok := rules.DoubleCross(faces, t.Pool, t.Add)
 		return v, u, ok
-	case "nested", "chain":
+	case "nested", "chain", "nested2":
 		if !need(t.X) {
 			return 0, 0, false
 		}
@@ -168,6 +169,11 @@ func c14TermValue(t c14Term, faces []int) (val int, used int, ok bool) {
 			return 0, 0, false
 		}
 		return sum(faces[t.X : t.X+first]), t.X + first, true
+	case "nested2s": // 2d(1d2+1d2): the two inner dice give the number of sides; the explorer answers the outer dice within that range
+		if !need(4) {
+			return 0, 0, false
+		}
+		return faces[2] + faces[3], 4, true
 	}
 	return 0, 0, false
 }
@@ -252,6 +258,11 @@ func (p *intParser) unary() (int, bool) {
 	v, _ := strconv.Atoi(p.s[p.i:j])
 	p.i = j
 	return v, true
+}
+
+// squash removes white space: a term that ends in ')' carries the blanks after it inside its span, so they move into the annotation
+func squash(s string) string {
+	return strings.Join(strings.Fields(s), "")
 }
 
 // splitAnnotations returns the text with every value[annotation] reduced to the value, and the annotations in order.
@@ -412,7 +423,7 @@ func c14Run(raw json.RawMessage) harn.Result {
 			viol("C14:unbalanced", fmt.Sprintf("unbalanced annotation brackets in %q", d1))
 			return
 		}
-		if strings.TrimSpace(plain) != wantPlain {
+		if squash(plain) != squash(wantPlain) {
 			viol("C14:text-without-annotations", fmt.Sprintf("faces %v: text %q without annotations is %q, expected the source with each roll replaced by its value: %q", faces, d1, strings.TrimSpace(plain), wantPlain))
 			return
 		}
@@ -447,6 +458,43 @@ func c14Run(raw json.RawMessage) harn.Result {
 	})
 	res.Stats["executions"] = st.Runs
 	res.Stats["executions_truncated"] = st.Forced
+	// history: the SAME source evaluated twice on one VM through Run (Parse path), with different dice: the second text must
+	// explain the second result (nothing of the first evaluation's text may survive)
+	if len(res.Violations) == 0 && nAnnotated > 0 {
+		vm2 := drv.NewVM(cfg)
+		_ = vm2.Run(c14Prelude)
+		pick, k := 0, 0
+		ds.VerifRollHook = func(src *rand.PCGSource, sides ds.IntType) (ds.IntType, bool) {
+			if pick == 0 {
+				return 1, true
+			}
+			k++ // second evaluation: faces sides, 1, 2, ... (varied, and exploding pools still terminate)
+			return ds.IntType((k+int(sides)-2)%int(sides)) + 1, true
+		}
+		var first, second string
+		var r1, r2 int64
+		if err := vm2.Run(c.Src); err == nil {
+			first = vm2.GetDetailText()
+			v, _ := vm2.Ret.ReadInt()
+			r1 = int64(v)
+			pick = 1
+			if err := vm2.Run(c.Src); err == nil {
+				second = vm2.GetDetailText()
+				v, _ := vm2.Ret.ReadInt()
+				r2 = int64(v)
+				// a fresh VM with the same faces gives the text the second evaluation must show
+				vm3 := drv.NewVM(cfg)
+				_ = vm3.Run(c14Prelude)
+				k = 0
+				if err := vm3.Run(c.Src); err == nil {
+					if want := vm3.GetDetailText(); want != second {
+						viol("C14:stale-text-after-rerun", fmt.Sprintf("evaluated twice on one VM (all dice 1 -> result %d, text %q; then varied dice -> result %d): second text %q, a fresh VM with the same dice shows %q", r1, first, r2, second, want))
+					}
+				}
+			}
+		}
+		res.Stats["executions"] += 3
+	}
 	if len(outcomes) > 1 {
 		res.Outcome = "varied"
 	} else {
@@ -485,8 +533,8 @@ func c14CheckAnnotation(t c14Term, rest string, faces []int, val int) string {
 		}
 		return ""
 	}
-	if t.Kind == "chain" {
-		return "" // 1d2d2 produces two adjacent spans reported as [1d2d2,1d2=v]; covered by the text/evaluation oracle
+	if t.Kind == "chain" || t.Kind == "nested2" || t.Kind == "nested2s" {
+		return "" // several spans in one group produces two adjacent spans reported as [1d2d2,1d2=v]; covered by the text/evaluation oracle
 	}
 	if rest == "" {
 		// text elided because it equals the value: only legitimate when the listing IS the value
@@ -560,7 +608,7 @@ func c14CheckAnnotation(t c14Term, rest string, faces []int, val int) string {
 func init() {
 	harn.Register(&harn.Check{
 		ID:   "C14",
-		Rule: "each case is one expression of <= 3 terms (int literals, XdY with keep/drop/min, advantage, Fate, CoC, WoD, Double Cross, nested and chained dice, int variables incl. a multi-byte name, a computed dice variable) joined by + - * with optional parentheses / unary minus, printed in 5 spacing variants incl. line breaks; for it EVERY sequence of die faces (first 6 dice, thorough 10; beyond: face 1; a D100 takes 8 representative faces) is enumerated through VerifRoll. Oracle per execution: the text with annotations deleted equals the source with each roll replaced by the value the independent rules give for the faces drawn, and evaluates (own evaluator) to the result; one annotation per non-literal term, starting with the term's source, listing exactly the faces drawn with the right total; GetDetailText twice gives the same string and leaves result, variables, generator state and draw count unchanged. Distinct by source text; all cases roll or load.",
+		Rule: "each case is one expression of <= 3 terms (int literals, XdY with keep/drop/min, advantage, Fate, CoC, WoD, Double Cross, nested and chained dice, int variables incl. a multi-byte name, a computed dice variable) joined by + - * with optional parentheses / unary minus, printed in 5 spacing variants incl. line breaks; for it EVERY sequence of die faces (first 6 dice, thorough 10; beyond: face 1; a D100 takes 8 representative faces) is enumerated through VerifRoll. Oracle per execution: the text with annotations deleted equals the source with each roll replaced by the value the independent rules give for the faces drawn, and evaluates (own evaluator) to the result; one annotation per non-literal term, starting with the term's source, listing exactly the faces drawn with the right total; GetDetailText twice gives the same string and leaves result, variables, generator state and draw count unchanged; the same source evaluated twice on one VM with different dice shows the text of the second evaluation. Distinct by source text; all cases roll or load.",
 		Enumerate: c14Enumerate,
 		Run:       c14Run,
 		Budget:    map[string]time.Duration{"quick": 170 * time.Second, "thorough": 40 * time.Minute},
